@@ -112,6 +112,12 @@ def run(ctx):
         'R4 every constant key read from the parsed input exists in the '
         'schema at that depth or is created by read_input; every option() '
         'list agrees with the dispatch that consumes it']
+    ctx.decided += [
+        'R5 (sign domain) the axial-region consistency predicate counts a '
+        'mismatch between consecutive regions whether it is a gap (positive) '
+        'or an overlap (negative): its filter is evaluated on the sign '
+        'representatives -1, 0, +1 and must select exactly the non-zero ones; '
+        'the caller turns a failed predicate into an error']
     ctx.not_decided += [
         'that each numeric guard rejects every member of its class',
         'that all accepted inputs sweep without exception']
@@ -119,6 +125,8 @@ def run(ctx):
     r2(ctx)
     r3(ctx)
     r4(ctx)
+    r5(ctx)
+    ctx.min_instances('C18.R5', 3)
     ctx.min_instances('C18.R1', 230)
     ctx.min_instances('C18.R2', 40)
     ctx.min_instances('C18.R3', 400)
@@ -775,3 +783,75 @@ def _options(ctx, keys):
                 % k.lineno, None, 'gap_model options %s have no dispatch '
                 'branch in core.py/reactor.py' % missing,
                 key='dassh.core | gap_model options')
+
+
+# ---------------------------------------------------------------------------
+# R5: the region-mismatch predicate is two-sided
+
+def r5(ctx):
+    repo = ctx.repo
+    fi = repo.func('read_input', '_check_reg_bnds')
+    p = fi.params[0]
+    filt = []
+    for n in ast.walk(fi.node):
+        if isinstance(n, (ast.ListComp, ast.GeneratorExp, ast.SetComp)) and \
+                len(n.generators) == 1 and src(n.generators[0].iter) == p:
+            g = n.generators[0]
+            if isinstance(g.target, ast.Name):
+                filt.append((n, g.target.id, g.ifs))
+    cnz = [c for c in ast.walk(fi.node) if isinstance(c, ast.Call)
+           and call_name(c) in ('np.count_nonzero',) and c.args
+           and src(c.args[0]).startswith(p)]
+    if not filt and not cnz:
+        raise AnalysisError('_check_reg_bnds: counting construct not '
+                            'recognised')
+    for n, v, ifs in filt:
+        sel = {}
+        for rep in (-1.0, 0.0, 1.0):
+            r = True
+            for t in ifs:
+                e = U.eval_test(t, {v: rep})
+                if e is None:
+                    raise AnalysisError('_check_reg_bnds: filter %s'
+                                        % src(t))
+                r = r and e
+            sel[rep] = r
+        ctx.require(sel == {-1.0: True, 0.0: False, 1.0: True}, 'C18.R5', fi,
+                    n, 'the mismatch filter must select gaps and overlaps '
+                    'alike (v = -1, 0, +1 -> %s): an overlap of two axial '
+                    'regions would not be counted and the input accepted'
+                    % [sel[k] for k in (-1.0, 0.0, 1.0)],
+                    key=fi.full + ' | two-sided mismatch')
+    for c in cnz:
+        ctx.ok('C18.R5', fi, c, 'count_nonzero counts both signs')
+    # more than one -> reject
+    rets = [r for r in walk_no_nested(fi.node) if isinstance(r, ast.Return)]
+    tests = [n for n in walk_no_nested(fi.node) if isinstance(n, ast.If)]
+    ok = len(tests) == 1 and isinstance(tests[0].test, ast.Compare) and \
+        isinstance(tests[0].test.ops[0], (ast.Gt, ast.GtE)) and \
+        const(tests[0].test.comparators[0]) == (
+            1 if isinstance(tests[0].test.ops[0], ast.Gt) else 2)
+    if ok:
+        rb = [const(r.value) for r in tests[0].body
+              if isinstance(r, ast.Return)]
+        ok = rb == [False]
+    ctx.require(ok, 'C18.R5', fi, tests[0] if tests else fi.node,
+                'more than one mismatch must make the predicate fail',
+                key=fi.full + ' | more than one')
+    # caller: failed predicate -> error
+    ck = repo.func('read_input', 'DASSH_Input.check_unrodded_regions')
+    calls = [c for c in walk_no_nested(ck.node) if isinstance(c, ast.Call)
+             and call_name(c) == '_check_reg_bnds']
+    ok = False
+    for c in calls:
+        up = parent(c)
+        if isinstance(up, ast.UnaryOp) and isinstance(up.op, ast.Not):
+            iff = parent(up)
+            if isinstance(iff, ast.If) and any(
+                    isinstance(x, ast.Call) and call_name(x) == 'self.log'
+                    and x.args and const(x.args[0]) == 'error'
+                    for s_ in iff.body for x in ast.walk(s_)):
+                ok = True
+    ctx.require(ok, 'C18.R5', ck, calls[0] if calls else ck.node,
+                'a failed region-bounds predicate must end in log(error)',
+                key=ck.full + ' | predicate wired to error')
